@@ -188,6 +188,11 @@ for _t in (str, bytes, bytearray):
         METHODS.add((_t, _m))
 
 
+import datetime as _datetime
+for _m in ('total_seconds',):
+    METHODS.add((_datetime.timedelta, _m))
+
+
 class Native:
     """base of the model objects a rule hands to the evaluated code: their attributes (properties included) can be
     read, their methods called and their items subscripted by that code"""
